@@ -76,15 +76,6 @@ def task_outputs(a, env):
                 _call(C_.PopProve, bad)
     for skh in a["sks"]:
         sk = int(skh, 16)
-        # history: another key signs, then non-integers that compare equal to sk are refused, then sk is used
-        from fractions import Fraction
-        from decimal import Decimal
-        for s_ in a["suites"]:
-            C_ = suite_cls(s_)
-            _call(C_.Sign, 7, b"m")
-            for eqv in (float(sk) if sk < 2 ** 53 else Fraction(sk), Fraction(sk), Decimal(sk)):
-                _call(C_.Sign, eqv, b"m")
-                _call(C_.SkToPk, eqv)
         # history: the key with equal hash() (sk +- (2^61 - 1)) is used first; results ignored
         alt = sk + M61 if sk + M61 < R_ else sk - M61
         if 0 < alt < R_:
@@ -94,6 +85,15 @@ def task_outputs(a, env):
                 _call(C_.Sign, alt, msgs[a["mis"][0]] if a["mis"] else b"m")
                 if s_ == "pop":
                     _call(C_.PopProve, alt)
+        # history: another key signs, then non-integers that compare equal to sk are refused, then sk is used
+        from fractions import Fraction
+        from decimal import Decimal
+        for s_ in a["suites"]:
+            C_ = suite_cls(s_)
+            _call(C_.Sign, 7, b"m")
+            for eqv in (float(sk) if sk < 2 ** 53 else Fraction(sk), Fraction(sk), Decimal(sk)):
+                _call(C_.Sign, eqv, b"m")
+                _call(C_.SkToPk, eqv)
         todo = [("pk", s, None) for s in a["suites"]]
         for mi in a["mis"]:
             todo += [("sign", s, mi) for s in a["suites"]]
